@@ -2,6 +2,7 @@ SPECIFICATION LiveSpec
 CONSTANTS
   H = 3
   Items = 4
+  OutCap = 2
   ReleaseBeforeHandle = TRUE
 INVARIANTS TypeOK C01_Simple C07_Closed
 PROPERTIES C07_Live
